@@ -312,7 +312,7 @@ def oracle(ctx: vlib.Ctx, n_schemas: int, n_values: int, focus: str | None = Non
             sb = S.new_dc(max(depth - 1, 1), force_self=rng.choice([True, True, "name"]))
             root = S.new_dc(depth, root=True, base=sb.name)
         else:
-            root = S.new_dc(depth, root=True)
+            root = S.new_dc(depth, root=True, wrapped_opts=rng.random() < 0.3)
         xds = rng.sample(L.USER_DIALECTS, 2) if dialect_mode else []
         opts = 0
         if jsonkind == "orjson" and rng.random() < 0.5:
@@ -489,7 +489,9 @@ def correspondence_cases(ctx: vlib.Ctx, n_schemas: int, n_values: int):
         sysk = si % 8 if si % 2 == 0 else None
         dm = (sysk in (0, 2, 4)) if sysk is not None else rng.random() < 0.4
         S = L.Schema(rng, jsonkind, small=True, dialect_mode=dm)
-        if sysk in (0, 6):
+        if sysk == 6:
+            root = S.new_dc(rng.choice([1, 2]), root=True, wrapped_opts=True)
+        elif sysk == 0:
             root = S.new_dc(rng.choice([1, 2]), root=True, force_self="name")
         elif sysk == 2:
             root = S.new_dc(rng.choice([1, 2]), root=True, force_self=True)
@@ -505,6 +507,7 @@ def correspondence_cases(ctx: vlib.Ctx, n_schemas: int, n_values: int):
             rootcls = mod.__dict__[root.name]
             tyc = L.coq_ty(root, S)
             envc = L.coq_env(S)
+            enumc = L.coq_enums(S, mod)
             xname = rng.choice(list(L.MODEL_USER_DIALECTS)) if dm else None
             user = L.MODEL_USER_DIALECTS[xname] if dm else []
             userc = "[" + "; ".join(f"({k}, EDict (Some {i}%nat) (Some {i}%nat))" for k, i, _ in user) + "]"
@@ -542,10 +545,10 @@ def correspondence_cases(ctx: vlib.Ctx, n_schemas: int, n_values: int):
                                 dec = f"(DecMissing {vlib.coq_str(mf)})"
                     bad = "[" + "; ".join(f"({k}, {vlib.coq_str(p)})" for k, p in dict.fromkeys(unrepr.get(F, []))) + "]"
                     fe, fo = fmt_dialects[F]
-                    cases.append("{| c_fmt := %s; c_env := %s; c_ty := %s; c_val := %s; c_tab := %s; c_utab := %s; c_user := %s; "
+                    cases.append("{| c_fmt := %s; c_env := %s; c_enums := %s; c_ty := %s; c_val := %s; c_tab := %s; c_utab := %s; c_user := %s; "
                                  "c_fmt_entries := %s; c_fmt_omit := %s; c_unrepr := %s; c_pack := %s; "
                                  "c_basic := %s; c_insub := %s; c_parsed := %s; c_dec := %s |}" % (
-                                     L.FMT[F], envc, tyc, pvc, tabc, utabc, userc, fe, fo, bad, L.coq_bv(nb), L.coq_bv(basic),
+                                     L.FMT[F], envc, enumc, tyc, pvc, tabc, utabc, userc, fe, fo, bad, L.coq_bv(nb), L.coq_bv(basic),
                                      "true" if why is None else "false", parsed, dec))
                     descr.append({"format": F, "src": src, "root": root.name, "value_src": L.vsrc(v), "outside": why, "dec": dec,
                                   "dialect": xname})
@@ -745,8 +748,9 @@ def run(ctx: vlib.Ctx):
         "edge-biased conforming values x 5 formats x {mixin, mixin-str, codec object, one-shot function}; a case is "
         "distinct by (shape annotation, format, entry point, value source); values outside the format's representable "
         "subset (c04lib.outside_subset, counted under coverage.outside_subset) are skipped for that format only. "
-        "correspondence: model-grammar modules (scalars, bytes/bytearray, datetime-likes, UUID, Decimal, Any, List, Dict[str,.], "
-        "Optional, nested / inherited / self-referencing dataclasses incl. typing.Self, discriminated unions) x values x 4 mixin "
+        "correspondence: model-grammar modules (scalars, bytes/bytearray, datetime-likes, UUID, Decimal, Enum, Any, List, "
+        "Tuple[T,...], Set, FrozenSet, Dict[str,.], Optional, NamedTuple, TypedDict, nested / inherited / self-referencing "
+        "dataclasses incl. typing.Self, discriminated unions) x values x 4 mixin "
         "formats x {no caller dialect, XD_empty, XD_bytes, XD_bytearray, XD_datetime at call time}, model run by vm_compute")
     ctx.assumptions += [
         "fmt_law (hypothesis of C04_roundtrip_partial / C04_doc_is_basic / C04_doc_exact): parse_F(ser_F(b)) = norm_F(b) "
@@ -760,11 +764,14 @@ def run(ctx: vlib.Ctx):
     ]
     ctx.trusted += [
         "Fmt.v models: class table with nested / inherited(flattened) / self-referencing dataclasses (by name and typing.Self), "
+        "NamedTuple (list form), total TypedDict, Enum (str/int values, no aliases), Tuple[T,...] / Tuple[T1..Tn] / Set / FrozenSet, "
         "discriminated unions (Annotated Discriminator, str tags), Literal tags, Any positions, lists, str-keyed mappings, "
-        "Optional, text-rendered leaves, the format dialects merged with a caller's dialect (both directions). NamedTuple, "
-        "TypedDict, plain unions, enums, sets, tuples, non-str keys, class-level discriminators / base-typed polymorphic "
-        "fields and the codec (non-mixin) entry points are covered by the oracle only",
+        "Optional, text-rendered leaves, the format dialects merged with a caller's dialect (both directions). Plain unions, "
+        "non-str mapping keys, class-level discriminators / base-typed polymorphic fields, "
+        "namedtuple_as_dict, orjson_options are covered by the oracle only",
         "the format libraries and the stdlib leaf codecs are oracles with assumed laws (hypotheses of the theorems)",
+        "tools/kernels/k41_format_dialects.py (AST reader of the three dialect classes), tools/kernels/k40_codec_wrapper.py "
+        "(symbolic walk of the codec wrapper generator) and coq/theories/CodecWrap.v (meaning of the emitted skeleton)",
         "tools/kernels/k11_method_names.py: translator extension (f-strings over str, +=, str-subclass construction) "
         "and coq/theories/PyK_names.v",
     ]
@@ -772,8 +779,8 @@ def run(ctx: vlib.Ctx):
                                           "C04_doc_is_basic", "C04_doc_exact"])
     ctx.theorems("props/C04_names.vo", ["C04_method_names_injective", "C04_method_names_total",
                                         "C04_method_table_no_overwrite"], kernels=["K11"])
-    ctx.theorems("props/C04_dialects.vo", ["C04_merge_strategies_is_model_clause", "C04_merge_keeps_format_omit_none"],
-                 kernels=["K2", "K13"])
+    ctx.theorems("props/C04_dialects.vo", ["C04_merge_strategies_is_model_clause", "C04_merge_keeps_format_omit_none",
+                                           "C04_format_dialect_tables_match_source"], kernels=["K2", "K13", "K41"])
     ctx.theorems("props/C04_codec.vo", ["C04_codec_decode_is_unpack_after_predecoder",
                                         "C04_codec_encode_is_postencoder_after_pack"], kernels=["K40"])
     ctx.checker_cmd = (f"make -C {vlib.COQ} props/C04_formats.vo props/C04_names.vo props/C04_dialects.vo props/C04_codec.vo "
